@@ -16,7 +16,13 @@ normalisation of its values).  Its three laws are exactly what the properties of
   * `whole`  - C04 `frames_of_messages` + C03 `parse_marshal` (+ C01 round trip): the bytes of one
                marshalled message, fed to an empty buffer, deliver exactly that message (normalised)
                and leave nothing;
-  * `empty`  - an empty read delivers nothing (C04 states its theorems "empty reads included").
+  * `empty`  - an empty read on an empty buffer delivers nothing (C04 states its theorems "empty reads
+               included"); that an empty read never delivers anything from what a feed left buffered follows
+               from `split` (`rest_stable`).
+
+`Proofs/Net/LinkTxdbus.lean` instantiates the framing half with C04's model (`framingCodec`: `feed` is the spec
+`frames` that `binary_partition_independent` proves `BasicDBusProtocol.dataReceived` computes) and states the
+corollary directly about C04's `run`.
 
 `link_refinement`: however the concatenation of the encoded messages is cut into reads, the receiver
 completes exactly the messages sent, in order, each once, normalised, and ends with an empty buffer;
@@ -33,12 +39,14 @@ structure Codec (M B : Type) where
   enc : M → List B
   feed : List B → List B → List M × List B
   norm : M → M
+  /-- the messages a sender can write (constructible, well-formed) -/
+  Valid : M → Prop
 
 structure Codec.Laws {M B : Type} (C : Codec M B) : Prop where
   split : ∀ buf x y, C.feed buf (x ++ y) =
     ((C.feed buf x).1 ++ (C.feed (C.feed buf x).2 y).1, (C.feed (C.feed buf x).2 y).2)
-  whole : ∀ m, C.feed [] (C.enc m) = ([C.norm m], [])
-  empty : ∀ buf, C.feed buf [] = ([], buf)
+  whole : ∀ m, C.Valid m → C.feed [] (C.enc m) = ([C.norm m], [])
+  empty : C.feed [] [] = ([], [])
 
 /-- The receiver processes a list of reads. -/
 def Codec.recv {M B : Type} (C : Codec M B) : List B → List (List B) → List M × List B
@@ -48,21 +56,36 @@ def Codec.recv {M B : Type} (C : Codec M B) : List B → List (List B) → List 
 /-- What the sender wrote for a list of messages. -/
 def Codec.stream {M B : Type} (C : Codec M B) (ms : List M) : List B := (ms.map C.enc).flatten
 
-theorem Codec.recv_flatten {M B : Type} (C : Codec M B) (h : C.Laws) (buf : List B) (reads : List (List B)) :
+/-- What a feed leaves buffered holds no further message: an empty read changes nothing (from `split`). -/
+theorem Codec.rest_stable {M B : Type} (C : Codec M B) (h : C.Laws) (buf x : List B) :
+    C.feed (C.feed buf x).2 [] = ([], (C.feed buf x).2) := by
+  have hs := h.split buf x []
+  rw [List.append_nil] at hs
+  have h1 := congrArg Prod.fst hs
+  have h2 := congrArg Prod.snd hs
+  simp only at h1 h2
+  have : (C.feed (C.feed buf x).2 []).1 = [] := by
+    have hl := congrArg List.length h1
+    rw [List.length_append] at hl
+    exact List.eq_nil_of_length_eq_zero (by omega)
+  exact Prod.ext this h2.symm
+
+theorem Codec.recv_flatten {M B : Type} (C : Codec M B) (h : C.Laws) (buf : List B) (reads : List (List B))
+    (hb : C.feed buf [] = ([], buf)) :
     C.recv buf reads = C.feed buf reads.flatten := by
   induction reads generalizing buf with
-  | nil => simp [Codec.recv, h.empty]
+  | nil => simp [Codec.recv, hb]
   | cons r rs ih =>
     simp only [Codec.recv, List.flatten_cons]
-    rw [h.split, ih]
+    rw [h.split, ih _ (C.rest_stable h buf r)]
 
-theorem Codec.feed_stream {M B : Type} (C : Codec M B) (h : C.Laws) (ms : List M) :
+theorem Codec.feed_stream {M B : Type} (C : Codec M B) (h : C.Laws) (ms : List M) (hv : ∀ m, m ∈ ms → C.Valid m) :
     C.feed [] (C.stream ms) = (ms.map C.norm, []) := by
   induction ms with
   | nil => simp [Codec.stream, h.empty]
   | cons m t ih =>
     have : C.stream (m :: t) = C.enc m ++ C.stream t := by simp [Codec.stream]
-    rw [this, h.split, h.whole]
-    simp only [ih, List.map_cons, List.singleton_append]
+    rw [this, h.split, h.whole m (hv m List.mem_cons_self)]
+    simp only [ih (fun x hx => hv x (List.mem_cons_of_mem _ hx)), List.map_cons, List.singleton_append]
 
 end Txdbus.Net
